@@ -14,8 +14,9 @@ Definition trunc (b : bytes) : bytes := firstn MAX_MESSAGE_LENGTH b.
 Definition is_window {A} (w l : list A) : Prop := exists a b, l = a ++ w ++ b.
 
 (** the header is what [combine] makes of at most three consecutive reported bursts *)
-Definition justified_som (log : list bytes) (h : header) : Prop :=
-  exists w, is_window w (map trunc log) /\ (length w <= 3)%nat /\ combine w = Some (Ok (SOM h)).
+Definition justified_msg (log : list bytes) (m : message) : Prop :=
+  exists w, is_window w (map trunc log) /\ (length w <= 3)%nat /\ combine w = Some (Ok m).
+Definition justified_som (log : list bytes) (h : header) : Prop := justified_msg log (SOM h).
 
 (** walk an event list: bursts extend the log, every StartOfMessage must be justified by the log so far *)
 Fixpoint justified_events (log : list bytes) (evs : list event) : Prop :=
@@ -47,11 +48,14 @@ Proof.
     + destruct Ha as [H1 H2]. split; [exact H1|]. apply IH; assumption.
 Qed.
 
-Lemma justified_som_mono log b h : justified_som log h -> justified_som (log ++ [b]) h.
+Lemma justified_msg_mono log b m : justified_msg log m -> justified_msg (log ++ [b]) m.
 Proof.
   intros (w & (a & c & Hw) & Hl & Hc). exists w. split; [|split; assumption].
   exists a, (c ++ [trunc b]). rewrite map_app, Hw. cbn [map]. rewrite <- !app_assoc. reflexivity.
 Qed.
+
+Lemma justified_som_mono log b h : justified_som log h -> justified_som (log ++ [b]) h.
+Proof. apply justified_msg_mono. Qed.
 
 (** * Assembler invariants *)
 Definition dl_le (x y : timed bytes) : Prop := t_deadline x <= t_deadline y.
@@ -62,7 +66,7 @@ Definition hist_ok (log : list bytes) (now : N) (hist : list (timed bytes)) : Pr
   /\ Forall (fun e => t_deadline e <= now + MAX_HISTORY_DURATION) hist.
 
 Definition pend_ok (log : list bytes) (p : option (timed msg_result)) : Prop :=
-  forall t h, p = Some t -> t_data t = Ok (SOM h) -> justified_som log h.
+  forall t m, p = Some t -> t_data t = Ok m -> justified_msg log m.
 
 Lemma skipn_sorted {A} (R : A -> A -> Prop) k l : StronglySorted R l -> StronglySorted R (skipn k l).
 Proof.
@@ -121,7 +125,7 @@ Qed.
 
 Lemma pending_poll_ok log p now o p' :
   pend_ok log p -> pending_poll p now = (o, p') ->
-  pend_ok log p' /\ forall h, o = Some (Ok (SOM h)) -> justified_som log h.
+  pend_ok log p' /\ forall m, o = Some (Ok m) -> justified_msg log m.
 Proof.
   intros Hp. unfold pending_poll. destruct p as [t|].
   - destruct (is_expired_at t now); intros E; inversion E; subst.
@@ -134,7 +138,7 @@ Lemma asm_idle_ok log now0 now s t s' :
   now0 <= now -> hist_ok log now0 (a_history s) -> pend_ok log (a_pending s) ->
   asm_idle s now = (t, s') ->
   hist_ok log now (a_history s') /\ pend_ok log (a_pending s')
-  /\ forall h, t = TMessage (Ok (SOM h)) -> justified_som log h.
+  /\ forall m, t = TMessage (Ok m) -> justified_msg log m.
 Proof.
   intros Hn Hh Hp. unfold asm_idle.
   destruct (prune_history_suffix (a_history s) now (proj1 (proj2 Hh))) as (k & Hk & _).
@@ -148,7 +152,7 @@ Proof.
 Qed.
 
 Lemma pending_accept_ok log p msg now :
-  pend_ok log p -> (forall h, msg = Ok (SOM h) -> justified_som log h) ->
+  pend_ok log p -> (forall m, msg = Ok m -> justified_msg log m) ->
   pend_ok log (pending_accept p msg now).
 Proof.
   intros Hp Hm. unfold pending_accept.
@@ -177,7 +181,7 @@ Lemma asm_assemble_ok log now0 now s b t s' :
   now0 <= now -> hist_ok log now0 (a_history s) -> pend_ok log (a_pending s) -> b <> [] ->
   asm_assemble s b now = (t, s') ->
   hist_ok (log ++ [b]) now (a_history s') /\ pend_ok (log ++ [b]) (a_pending s')
-  /\ forall h, t = TMessage (Ok (SOM h)) -> justified_som (log ++ [b]) h.
+  /\ forall m, t = TMessage (Ok m) -> justified_msg (log ++ [b]) m.
 Proof.
   intros Hn Hh Hp Hb. unfold asm_assemble. destruct b as [|b0 b']; [contradiction|].
   set (b := b0 :: b') in *.
@@ -191,7 +195,7 @@ Proof.
     - eapply (sorted_snoc h _ now now); [lia|exact Hs|exact Hf|reflexivity].
     - apply Forall_app. split; [exact Hf|]. constructor; [cbn; lia|constructor]. }
   assert (pend_ok (log ++ [b]) (a_pending s)) as Hp1.
-  { intros t0 h0 H1 H2. apply justified_som_mono. eapply Hp; eassumption. }
+  { intros t0 h0 H1 H2. apply justified_msg_mono. eapply Hp; eassumption. }
   set (pend := match deduplicate (prune_previous (a_previous s) now) (combine (map t_data h')) with
                | Some msg => pending_accept (a_pending s) msg now
                | None => a_pending s end).
@@ -357,14 +361,20 @@ Proof.
   - intros b Hl; discriminate.
 Qed.
 
-Theorem step_core_justified c k log i k' evs :
+(** every successfully decoded message event of a step is what [combine] makes of at most three
+    consecutive reported bursts, or it is the forced EndOfMessage of an armed, elapsed timer *)
+Definition msg_justified (k : core) (log : list bytes) (m : message) : Prop :=
+  justified_msg log m \/ (m = EOM /\ exists tm, r_force_eom k = Some tm /\ tm < r_samples k + 1).
+
+Theorem step_core_justified_gen c k log i k' evs :
   max_prefix_bit_errors (fc c) <= 7 ->
   CInv k log -> step_core c k i = (k', evs) ->
-  CInv k' (log ++ bursts_of evs) /\ justified_events log evs.
+  CInv k' (log ++ bursts_of evs) /\ justified_events log evs
+  /\ (forall e m, In e evs -> ev_what e = WTransport (TMessage (Ok m)) -> msg_justified k (log ++ bursts_of evs) m).
 Proof.
   intros Hb (Hh & Hp & Hf & Hl). unfold step_core. destruct i as [|t].
   - intros E; inversion E; subst. cbn [bursts_of justified_events r_sq r_asm r_fr r_link]. rewrite app_nil_r.
-    split; [|exact I]. split; [exact Hh|]. split; [exact Hp|]. split; [exact Hf|exact Hl].
+    split; [|split; [exact I|intros e m []]]. split; [exact Hh|]. split; [exact Hp|]. split; [exact Hf|exact Hl].
   - destruct (linklayer_symbol c (r_sq k) (r_fr k) t) as [[[l sq'] fr'] u] eqn:El.
     destruct (linklayer_symbol_ok c _ _ t l sq' fr' u Hb Hf El) as (Hf' & Hbl & Hnb & Hsc).
     (* the link state handed to the transport layer is always the one last reported *)
@@ -391,27 +401,33 @@ Proof.
                           | _ => (None, r_asm k) end
               end) = (ot, asm')
             /\ hist_ok log1 (sq_symcount sq') (a_history asm') /\ pend_ok log1 (a_pending asm')
-            /\ (forall t0 h, ot = Some t0 -> t0 = TMessage (Ok (SOM h)) -> justified_som log1 h)) as (ot & asm' & Et & Hh' & Hp' & Hj).
+            /\ (forall t0 m, ot = Some t0 -> t0 = TMessage (Ok m) -> msg_justified k log1 m)) as (ot & asm' & Et & Hh' & Hp' & Hj).
     { assert (sq_symcount (r_sq k) <= sq_symcount sq') as Hmono by lia.
       assert (forall lg, hist_ok lg (sq_symcount (r_sq k)) (a_history (r_asm k)) -> hist_ok lg (sq_symcount sq') (a_history (r_asm k))) as Hup.
       { intros lg (A1 & A2 & A3). split; [exact A1|]. split; [exact A2|]. eapply Forall_impl; [|exact A3]. cbn. intros e He. lia. }
       destruct l as [| | |b].
       - (* NoCarrier *)
         assert (log1 = log) as -> by (unfold log1, e1; destruct (negb _); cbn [bursts_of ev_what]; apply app_nil_r).
-        destruct (match r_force_eom k with Some tm => tm <? n | None => false end).
-        + eexists _, _. split; [reflexivity|]. split; [apply Hup, Hh|]. split; [exact Hp|]. intros t0 h Ht ->. discriminate.
+        assert (forall m, (match r_force_eom k with Some tm => tm <? n | None => false end) = true ->
+                  Some (TMessage (Ok EOM)) = Some (TMessage (Ok m)) -> msg_justified k log m) as Hforced.
+        { intros m Hto Hm. inversion Hm; subst m. right. split; [reflexivity|].
+          destruct (r_force_eom k) as [tm|]; [|discriminate]. exists tm. split; [reflexivity|]. unfold n in Hto. lia. }
+        destruct (match r_force_eom k with Some tm => tm <? n | None => false end) eqn:Eto.
+        + eexists _, _. split; [reflexivity|]. split; [apply Hup, Hh|]. split; [exact Hp|]. intros t0 m Ht ->. apply Hforced; [reflexivity|exact Ht].
         + destruct (asm_idle (r_asm k) (sq_symcount sq')) as [t0 a'] eqn:Ea.
           destruct (asm_idle_ok log _ _ _ _ _ Hmono Hh Hp Ea) as (B1 & B2 & B3).
           eexists _, _. split; [reflexivity|]. split; [exact B1|]. split; [exact B2|].
-          intros t1 h Ht Hm. inversion Ht; subst. apply B3. reflexivity.
+          intros t1 m Ht Hm. inversion Ht; subst. left. apply B3. reflexivity.
       - assert (log1 = log) as -> by (unfold log1, e1; destruct (negb _); cbn [bursts_of ev_what]; apply app_nil_r).
-        destruct (match r_force_eom k with Some tm => tm <? n | None => false end);
-          eexists _, _; (split; [reflexivity|]); (split; [apply Hup, Hh|]); (split; [exact Hp|]); intros t0 h Ht Hm; try discriminate.
-        inversion Ht; subst; discriminate.
+        destruct (match r_force_eom k with Some tm => tm <? n | None => false end) eqn:Eto;
+          eexists _, _; (split; [reflexivity|]); (split; [apply Hup, Hh|]); (split; [exact Hp|]); intros t0 m Ht Hm; try discriminate.
+        assert (m = EOM) as -> by congruence. right. split; [reflexivity|].
+        destruct (r_force_eom k) as [tm|]; [|discriminate]. exists tm. split; [reflexivity|]. unfold n in Eto. lia.
       - assert (log1 = log) as -> by (unfold log1, e1; destruct (negb _); cbn [bursts_of ev_what]; apply app_nil_r).
-        destruct (match r_force_eom k with Some tm => tm <? n | None => false end);
-          eexists _, _; (split; [reflexivity|]); (split; [apply Hup, Hh|]); (split; [exact Hp|]); intros t0 h Ht Hm; try discriminate.
-        inversion Ht; subst; discriminate.
+        destruct (match r_force_eom k with Some tm => tm <? n | None => false end) eqn:Eto;
+          eexists _, _; (split; [reflexivity|]); (split; [apply Hup, Hh|]); (split; [exact Hp|]); intros t0 m Ht Hm; try discriminate.
+        assert (m = EOM) as -> by congruence. right. split; [reflexivity|].
+        destruct (r_force_eom k) as [tm|]; [|discriminate]. exists tm. split; [reflexivity|]. unfold n in Eto. lia.
       - (* Burst: it was just logged *)
         assert (log1 = log ++ [b]) as ->.
         { unfold log1, e1. rewrite (Hrep b eq_refl). reflexivity. }
@@ -419,7 +435,7 @@ Proof.
         destruct (asm_assemble (r_asm k) b (sq_symcount sq')) as [t0 a'] eqn:Ea.
         destruct (asm_assemble_ok log _ _ _ b _ _ Hmono Hh Hp Hne Ea) as (B1 & B2 & B3).
         eexists _, _. split; [reflexivity|]. split; [exact B1|]. split; [exact B2|].
-        intros t1 h Ht Hm. inversion Ht; subst. apply B3. reflexivity. }
+        intros t1 m Ht Hm. inversion Ht; subst. left. apply B3. reflexivity. }
     rewrite Et. clear Et.
     set (force' := match ot with
                    | Some (TMessage (Ok (SOM _))) => Some (n + MAX_MESSAGE_DURATION_SECS * input_rate c)
@@ -427,16 +443,32 @@ Proof.
     assert (forall tr q, CInv (mkCore sq' fr' asm' (if negb (link_eqb l (r_link k)) then l else r_link k) tr n q) log1) as Hinv.
     { intros tr q. split; [exact Hh'|]. split; [exact Hp'|]. split; [exact Hf'|].
       cbn [r_link r_fr]. rewrite Hlink. intros b Hlb. apply (Hbl b Hlb). }
+    assert (forall e m, In e e1 -> ev_what e <> WTransport (TMessage (Ok m))) as Hnm1.
+    { intros e m He. unfold e1 in He. destruct (negb _); [|destruct He]. destruct He as [<-|[]]. cbn [ev_what]. discriminate. }
     destruct ot as [t'|].
     + destruct (transport_eqb t' (r_transport k)).
-      * intros E; inversion E; subst. split; [apply Hinv|exact Je1].
-      * intros E; inversion E; subst. split.
-        -- assert (bursts_of (e1 ++ [mkEvent (WTransport t') n]) = bursts_of e1) as ->.
-           { unfold e1. destruct (negb _); cbn [app bursts_of ev_what]; [destruct l; reflexivity|reflexivity]. }
-           apply Hinv.
+      * intros E; inversion E; subst. split; [apply Hinv|split; [exact Je1|]].
+        intros e m He Hm. exfalso. exact (Hnm1 e m He Hm).
+      * assert (bursts_of (e1 ++ [mkEvent (WTransport t') n]) = bursts_of e1) as Hbo.
+        { unfold e1. destruct (negb _); cbn [app bursts_of ev_what]; [destruct l; reflexivity|reflexivity]. }
+        intros E; inversion E; subst. split; [|split].
+        -- rewrite Hbo. apply Hinv.
         -- apply justified_events_app; [exact Je1|]. fold log1. cbn [justified_events ev_what].
-           destruct t' as [| |[[h|]|er]]; try exact I. split; [|exact I]. eapply Hj; reflexivity.
-    + intros E; inversion E; subst. split; [apply Hinv|exact Je1].
+           destruct t' as [| |[[h|]|er]]; try exact I. split; [|exact I].
+           destruct (Hj _ (SOM h) eq_refl eq_refl) as [Hx|[Hx _]]; [exact Hx|discriminate].
+        -- rewrite Hbo. fold log1. intros e m He Hm. apply in_app_or in He. destruct He as [He|[<-|[]]].
+           ++ exfalso. exact (Hnm1 e m He Hm).
+           ++ cbn [ev_what] in Hm. inversion Hm; subst t'. eapply Hj; reflexivity.
+    + intros E; inversion E; subst. split; [apply Hinv|split; [exact Je1|]].
+      intros e m He Hm. exfalso. exact (Hnm1 e m He Hm).
+Qed.
+
+Theorem step_core_justified c k log i k' evs :
+  max_prefix_bit_errors (fc c) <= 7 ->
+  CInv k log -> step_core c k i = (k', evs) ->
+  CInv k' (log ++ bursts_of evs) /\ justified_events log evs.
+Proof.
+  intros Hb Hi E. destruct (step_core_justified_gen c k log i k' evs Hb Hi E) as (A & B & _). split; assumption.
 Qed.
 
 Theorem run_core_justified c : forall src k log,
